@@ -7,11 +7,12 @@ import SqlizeModel.Proofs.FidelitySteps
 namespace Sqlize
 open Spec
 
-/-- statements covered: everything but RENAME COLUMN / RENAME INDEX / COMMENT ON, with a non-empty table name -/
+/-- statements covered: everything but RENAME COLUMN / RENAME INDEX / COMMENT ON / the Postgres ALTER COLUMN spellings, with a non-empty table name -/
 def Stmt.colSafe : Stmt → Bool
   | .renameColumn .. => false
   | .renameIndex .. => false
   | .commentOn .. => false
+  | .alterType .. | .setDefault .. | .dropNotNull .. => false      -- Postgres spellings: not MySQL statements
   | s => s.table != ""
 
 namespace ReaderMysql
@@ -193,6 +194,9 @@ theorem step_rel (rc : Bool) {m : Migration} {db db' : DB} (h : Rel m db) (s : S
         (tb' := { tb with idxs := tb.idxs.filter (·.name != name) }) rfl rfl
       exact ⟨m1.using_ t, by unfold step; simp only [h1, bind, Except.bind, pure, Except.pure], hr⟩
   | commentOn t c text => simp [Stmt.colSafe] at hs
+  | alterType t c typ => simp [Stmt.colSafe] at hs
+  | setDefault t c d => simp [Stmt.colSafe] at hs
+  | dropNotNull t c => simp [Stmt.colSafe] at hs
 
 
 theorem run_rel (rc : Bool) (ss : List Stmt) : ∀ (m : Migration) (db db' : DB), Rel m db →
